@@ -81,6 +81,20 @@ def generateEpisode (S : SimIface σ α ω ι) (k : MKind) (P : Policies α ω) 
   | .err e => { trace := [reset.1], err := some e }
   | .stepOk _ => { trace := [reset.1], err := some .crash }
 
+/-- the manager state after the calls of a record (replays the recorded operations) -/
+def stateAfter (S : SimIface σ α ω ι) (k : MKind) : MState σ → List (Op α) → MState σ
+  | m, [] => m
+  | m, op :: ops => stateAfter S k (runOp S k m op).2 ops
+
+/-- `DebugTrainer.train(iterations, horizon=h)`: one `generate_episode(horizon=h)` per iteration on
+the same manager -/
+def trainEpisodes (S : SimIface σ α ω ι) (k : MKind) (P : Policies α ω) (horizon : Nat) :
+    Nat → MState σ → List (EpRec α ω ι)
+  | 0, _ => []
+  | n + 1, m =>
+    let r := generateEpisode S k P horizon m
+    r :: trainEpisodes S k P horizon n (stateAfter S k m (r.trace.map (·.op)))
+
 /-- `_check_agent_policy_alignment`: every learning agent's spaces equal its mapped policy's
 (spaces are compared by `==` in Python; here they are abstract identifiers) -/
 def checkAlignment (n : Nat) (learning : Aid → Bool) (pmap : Aid → Nat)
